@@ -97,7 +97,10 @@ def specCheck (prop : String) (op res : List String) : String :=
   | "C08", ["e2e_pair", _, _] =>
     -- the observation must not depend on how request bytes, reads and writes are segmented
     match (" ".intercalate res).splitOn " ## " with
-    | [a, b] => verdict (a == b) "observation depends on the segmentation of reads/writes"
+    | [a, b] =>
+      -- the per-operation progress logs have one entry per read/write operation: not comparable
+      let strip (x : String) := (x.splitOn " ").filter fun t => !(t.startsWith "rp=" || t.startsWith "wp=")
+      verdict (strip a == strip b) "observation depends on the segmentation of reads/writes"
     | _ => "fail unparsable result"
   | "C09", ["env_dec", h, b] =>
     match envOf h, fromHex b with
